@@ -4,6 +4,7 @@
 package metrics
 
 import (
+	"strings"
 	"time"
 
 	"github.com/prometheus/client_golang/prometheus"
@@ -79,19 +80,25 @@ func NewPrometheusService() (*Service, error) {
 	return s, nil
 }
 
+// nodeLabel makes a Node ID usable as a label value: an FQDN Node ID is whatever bytes the peer sent,
+// and label values that are not valid UTF-8 make the Prometheus client panic.
+func nodeLabel(nodeID string) string {
+	return strings.ToValidUTF8(nodeID, "?")
+}
+
 func (s *Service) SaveMessages(msg *Message) {
-	s.msgCount.WithLabelValues(msg.NodeID, msg.MsgType, msg.Direction, msg.Result).Inc()
-	s.msgDuration.WithLabelValues(msg.NodeID, msg.MsgType, msg.Direction).Observe(msg.Duration)
+	s.msgCount.WithLabelValues(nodeLabel(msg.NodeID), msg.MsgType, msg.Direction, msg.Result).Inc()
+	s.msgDuration.WithLabelValues(nodeLabel(msg.NodeID), msg.MsgType, msg.Direction).Observe(msg.Duration)
 }
 
 func (s *Service) SaveSessions(sess *Session) {
 	if sess.Duration == 0 {
-		s.sessions.WithLabelValues(sess.NodeID).Inc()
+		s.sessions.WithLabelValues(nodeLabel(sess.NodeID)).Inc()
 		return
 	}
 
-	s.sessions.WithLabelValues(sess.NodeID).Dec()
-	s.sessionDuration.WithLabelValues(sess.NodeID).Observe(sess.Duration)
+	s.sessions.WithLabelValues(nodeLabel(sess.NodeID)).Dec()
+	s.sessionDuration.WithLabelValues(nodeLabel(sess.NodeID)).Observe(sess.Duration)
 }
 
 func (s *Service) Stop() error {
